@@ -384,6 +384,131 @@ class GSeq(GhostIterable):
                 a.proto.exit(interp, env)
 
 
+
+class SymVec:
+    """a one-dimensional integer array of SYMBOLIC LENGTH n whose content is a function of the index: the default value overwritten by the recorded slice assignments
+    (numpy / Python slice semantics for positive steps: negative bounds count from the end, bounds are clipped to [0, n]), possibly re-indexed (strided views, concatenation).
+    Reading position k (a symbolic integer) gives an if-then-else term.  Models: np.zeros(n) with symbolic n, v[a:b:c] = x, v[a:b:c], np.concatenate, len, enumerate (loop cut)."""
+
+    def __init__(self, n, read=None, default=0, proto=None):
+        self.n, self.default, self.writes, self._read, self.proto = n, default, [], read, proto
+
+    # index helpers (z3 terms)
+    @staticmethod
+    def _z(x):
+        import z3
+        return x.to_z3() if isinstance(x, Poly) else z3.IntVal(int(x))
+
+    def _bounds(self, sl):
+        import z3
+        n = self._z(self.n)
+        step = 1 if sl.step is None else sl.step
+        if isinstance(step, Poly):
+            if not step.is_const():
+                raise Unsupported("symbolic slice step")
+            step = int(step.to_python())
+        if step <= 0:
+            raise Unsupported("non-positive slice step on a symbolic-length array")
+
+        def eff(x, dflt):
+            if x is None:
+                return dflt
+            zx = self._z(x)
+            return z3.If(zx < 0, z3.If(n + zx < 0, z3.IntVal(0), n + zx), z3.If(zx > n, n, zx))
+        return eff(sl.start, z3.IntVal(0)), eff(sl.stop, n), step
+
+    def __setitem__(self, idx, v):
+        if self._read is not None:
+            raise Unsupported("assignment through a view of a symbolic-length array")
+        if isinstance(idx, slice):
+            self.writes.append((self._bounds(idx), v))
+        else:
+            import z3
+            zi = self._z(idx)
+            self.writes.append(((zi, zi + 1, 1), v))
+
+    def get(self, k):
+        """value at position k (Poly / int), 0 <= k < n assumed by the caller"""
+        import z3
+        if self._read is not None:
+            return self._read(k)
+        zk = self._z(k)
+        val = self._z(self.default) if not isinstance(self.default, Poly) else self.default.to_z3()
+        for (a, b, step), v in self.writes:
+            cond = z3.And(zk >= a, zk < b, (zk - a) % step == 0)
+            val = z3.If(cond, self._z(v), val)
+        return Poly.atom(z3.simplify(val), isint=True)
+
+    def __getitem__(self, idx):
+        import z3
+        if isinstance(idx, slice):
+            a, b, step = self._bounds(idx)
+            # number of selected positions: ceil((b - a) / step) when b > a
+            cnt = z3.If(b > a, (b - a + step - 1) / step, z3.IntVal(0))
+            base = self
+            return SymVec(Poly.atom(z3.simplify(cnt), isint=True), read=lambda j, a=a, step=step: base.get(Poly.atom(a + self._z(j) * step, isint=True)))
+        return self.get(idx)
+
+    @staticmethod
+    def concatenate(parts):
+        import z3
+        parts = list(parts)
+        if len(parts) != 2 or not all(isinstance(p, SymVec) for p in parts):
+            raise Unsupported("concatenate of other than two symbolic-length arrays")
+        a, b = parts
+        na = SymVec._z(a.n)
+        n = a.n + b.n
+
+        def read(j):
+            zj = SymVec._z(j)
+            va, vb = a.get(j).to_z3(), b.get(Poly.atom(zj - na, isint=True)).to_z3()
+            return Poly.atom(z3.If(zj < na, va, vb), isint=True)
+        return SymVec(n, read=read)
+
+    def __len__(self):
+        raise Unsupported("len() of a symbolic-length array must go through the interpreter")
+
+    def __iter__(self):
+        raise Unsupported("native iteration over a symbolic-length array")
+
+
+class SymVecEnum(GhostIterable):
+    """enumerate(v) for a symbolic-length array: loop cut on a generic position 0 <= i < n with the value v[i]; invariant protocol supplied by the contract (v.proto)"""
+
+    def __init__(self, vec):
+        self.vec = vec
+        self.iterations = 0
+        self.managed = getattr(vec.proto, "managed", ())
+        self.temps = getattr(vec.proto, "temps", ())
+
+    def element(self):
+        c = current()
+        self.iterations += 1
+        i = c.integer(f"i_generic_{id(self.vec) % 1000}")
+        c.assume(i >= 0)
+        c.assume(i < self.vec.n)
+        self.index = i
+        self.value = self.vec.get(i)
+        return (i, self.value)
+
+    def init(self, interp, env):
+        if self.vec.proto is not None:
+            self.vec.proto.init(interp, env)
+
+    def havoc(self, interp, env):
+        if self.vec.proto is not None:
+            self.vec.proto.havoc(interp, env)
+
+    def step(self, interp, env, broke):
+        if self.vec.proto is not None:
+            self.vec.proto.enum = self
+            self.vec.proto.step(interp, env, broke)
+
+    def exit(self, interp, env):
+        if self.vec.proto is not None:
+            self.vec.proto.exit(interp, env)
+
+
 class IFunc:
     """a function object created by interpreting a `def` / `lambda` inside interpreted code"""
 
@@ -1331,7 +1456,7 @@ class Interp:
         if isinstance(v, Poly):
             if v.is_const():
                 return v.to_python() if not v.isint else int(v.to_python())
-            raise Unsupported("symbolic slice bound")
+            return v        # symbolic slice bound: only a symbolic-length array (SymVec) accepts it; native containers raise and the obligation becomes undecided
         return v
 
     def getitem(self, obj, idx):
@@ -1353,6 +1478,8 @@ class Interp:
                     if truth(self.py_eq(k, idx)):
                         return obj[k]
                 raise KeyError(idx)
+        if isinstance(idx, slice) and not isinstance(obj, SymVec) and any(isinstance(b, Poly) for b in (idx.start, idx.stop, idx.step)):
+            raise Unsupported("symbolic slice bound")
         return obj[idx]
 
     def setitem(self, obj, idx, v):
@@ -1377,6 +1504,8 @@ class Interp:
                         return
         if isinstance(obj, np.ndarray) and obj.dtype != object and has_sym(v):
             raise Unsupported("symbolic value stored into a numeric numpy array")
+        if isinstance(idx, slice) and not isinstance(obj, SymVec) and any(isinstance(b, Poly) for b in (idx.start, idx.stop, idx.step)):
+            raise Unsupported("symbolic slice bound")
         obj[idx] = v
 
     def e_Subscript(self, e, env):
@@ -1662,6 +1791,8 @@ def _m_len(interp, f, args, kw):
     x = args[0]
     if isinstance(x, GSeq):
         return x.length()
+    if isinstance(x, SymVec):
+        return x.n
     m = _lookup(type(x), "__len__")
     if m is not None and interp.node_of(m) is not None:
         return interp.call_value(m, [x], {})
@@ -1862,7 +1993,23 @@ def _m_enum(interp, f, args, kw):
         if isinstance(x, (list, tuple, str, range, dict)):
             return reversed(x)
         return reversed(list(interp.iterate(x)))
+    if f is enumerate and len(args) == 1 and isinstance(args[0], SymVec):
+        return SymVecEnum(args[0])
     return f(*[interp.iterate(a) if not isinstance(a, int) else a for a in args], **kw)
+
+
+@model(np.zeros, doc="np.zeros(n) with a symbolic length n: a symbolic-length integer array (SymVec)")
+def _m_npzeros(interp, f, args, kw):
+    if args and isinstance(args[0], Poly) and not args[0].is_const():
+        return SymVec(args[0])
+    return f(*args, **kw)
+
+
+@model(np.concatenate, doc="np.concatenate of two symbolic-length arrays")
+def _m_npconcat(interp, f, args, kw):
+    if args and isinstance(args[0], (tuple, list)) and any(isinstance(p, SymVec) for p in args[0]):
+        return SymVec.concatenate(args[0])
+    return f(*args, **kw)
 
 
 @model(abs, doc="abs(sym) = If(x>=0,x,-x)")
